@@ -145,6 +145,9 @@ def Peer.idle (p : Peer) : Prop := p.events = 0 ∧ p.slot = none ∧ p.jobs = [
 def Quiescent (s : State) : Prop :=
   s.host.idle ∧ ∀ c ∈ s.clients, c.p.idle ∧ c.up = [] ∧ c.down = []
 
+instance decQuiescent (s : State) : Decidable (Quiescent s) := by
+  unfold Quiescent Peer.idle; infer_instance
+
 /-- between two writer epochs: every peer holds `x`, nothing pending anywhere (the serve caches may hold
 anything: nobody is pointed at them) -/
 def Peer.settled (x : Option Nat) (p : Peer) : Prop :=
